@@ -214,6 +214,31 @@ where
 		cx.oracle.check(boxed.encode() == base, "bits-encoding-depends-on-offset", || format!("BitBox<{tn}> offset={off} len={n}"));
 		cx.stats.bump("bits/offsets");
 	}
+	// the same bits reached by shrinking a longer vector (dead bits keep what they held)
+	{
+		let mut long = BitVec::<T, O>::new();
+		for b in &bits {
+			long.push(*b);
+		}
+		for _ in 0..(1 + cx.rng.below(2 * w as u64 + 3)) {
+			long.push(true);
+		}
+		long.truncate(n);
+		cx.oracle.check(long.encode() == base, "bits-encoding-depends-on-history", || format!("BitVec<{tn}> truncated to len={n}"));
+		let mut popped = long.clone();
+		popped.push(true);
+		popped.pop();
+		cx.oracle.check(popped.encode() == base, "bits-encoding-depends-on-history", || format!("BitVec<{tn}> push/pop at len={n}"));
+		let ones = BitVec::<T, O>::repeat(true, n + w + 1);
+		let mut cut = ones.clone();
+		cut.truncate(n);
+		let mut fresh_ones = BitVec::<T, O>::new();
+		for _ in 0..n {
+			fresh_ones.push(true);
+		}
+		cx.oracle.check(cut.encode() == fresh_ones.encode(), "bits-encoding-depends-on-history", || format!("BitVec<{tn}> repeat(true) truncated to len={n}"));
+		cx.stats.bump("bits/shrunk");
+	}
 	model_case(cx, &format!("BitVec<{tn}> len={n}"), &fresh, &base);
 }
 
